@@ -192,6 +192,27 @@ func (h *ForkableHub) SourceFromBlockNum(num uint64, handler bstream.Handler) (o
 	return
 }
 
+// SourceFromBlockRef is SourceFromBlockNum for a caller that already holds the block `ref` (the joining
+// source read it from the merged files): it answers only when that very block is the canonical block
+// of its height, so that the caller is never continued on another fork.
+func (h *ForkableHub) SourceFromBlockRef(ref bstream.BlockRef, handler bstream.Handler) (out bstream.Source) {
+	if h == nil {
+		return nil
+	}
+
+	err := h.forkable.CallWithBlocksFromNum(ref.Num(), func(blocks []*bstream.PreprocessedBlock) { // Running callback func while forkable is locked
+		if len(blocks) == 0 || blocks[0].Block.Id != ref.ID() {
+			return
+		}
+		out = h.subscribe(handler, blocks)
+	}, false)
+	if err != nil {
+		zlog.Debug("error getting source_from_block_ref", zap.Error(err))
+		return nil
+	}
+	return
+}
+
 func (h *ForkableHub) SourceFromBlockNumWithForks(num uint64, handler bstream.Handler) (out bstream.Source) {
 	if h == nil {
 		return nil
